@@ -70,17 +70,32 @@ Theorem C11_validate_never_panics :
 Proof. exact validate_never_panics. Qed.
 Print Assumptions C11_validate_never_panics.
 
-(* the error variant names a condition that is really violated.  [error_names_violation t e]:
-     NonTightProgram                               c_tight t = false
-     ProgramContainsPrivateRecursion               c_no_private_recursion t = false
-     InputPredicateInRuleHead                      c_no_input_in_head t = false
-     InputOutputPredicatesOverlap                  c_io_disjoint t = false
-     OutputPredicateInSpecificationAssumption      c_spec_assumptions_no_output t = false
-     PlaceholdersWithIdenticalNamesDifferentSorts  c_placeholders_single_sorted t = false
-     AssumptionContainsNonInputSymbols             c_ug_assumptions_inputs_only t = false, or the
-                                                   specification has an assumption outside inputs + program-private predicates
-     UnsupportedFormulaRepresentation              et_repr t = ReprMu
-     SpecificationContainsUnsupportedRoles         the specification has a role other than assumption / spec
+(* the error names a condition that is really violated AND ITS PAYLOAD NAMES THE VIOLATION
+   (audit B16; the payloads are part of the correspondence wire format, docs/C11.md "payloads").
+   [error_names_violation t e], with inputs / outputs the declared input / output predicates and
+   "a program of the task" = the program or the specification program ([is_task_program]):
+     NonTightProgram p                   c_tight t = false; p is a program of the task; is_tight p = false
+     ProgramContainsPrivateRecursion p   c_no_private_recursion t = false; p is the program (resp. the
+                                         specification program) and has private recursion w.r.t. the
+                                         private predicates of that side
+     InputPredicateInRuleHead ps         c_no_input_in_head t = false; ps <> []; for a program prog of the task
+                                         ps = iset_inter inputs (head predicates of prog), i.e.
+                                         p in ps <-> p is an input predicate heading a rule of prog
+     InputOutputPredicatesOverlap ps     c_io_disjoint t = false; ps = iset_inter inputs outputs; ps <> [];
+                                         p in ps <-> p in inputs /\ p in outputs
+     OutputPredicateInSpecificationAssumption ps
+                                         c_spec_assumptions_no_output t = false; ps <> []; for an ASSUMPTION a
+                                         of the specification ps = the predicates of a that are outputs
+     PlaceholdersWithIdenticalNamesDifferentSorts n
+                                         c_placeholders_single_sorted t = false; the user guide declares
+                                         placeholders (n, s1) and (n, s2) with s1 <> s2
+     AssumptionContainsNonInputSymbols a a is an assumption; either c_ug_assumptions_inputs_only t = false, a is a
+                                         user-guide formula and mentions a predicate that is not an input, or
+                                         a is a formula of the specification and mentions a predicate that is
+                                         neither an input nor a private predicate of the program
+     UnsupportedFormulaRepresentation    et_repr t = ReprMu
+     SpecificationContainsUnsupportedRoles a
+                                         a is a formula of the specification whose role is neither assumption nor spec
      (the two remaining variants are never returned by the validation) *)
 Theorem C11_error_names_violation :
   forall (is_tight : program -> bool) (has_private_recursion : program -> list pred -> bool) (t : ext_task) e,
@@ -90,10 +105,11 @@ Proof. exact validate_error_sound. Qed.
 Print Assumptions C11_error_names_violation.
 
 (* for each of the seven conditions (numbered as in the header): when it is the only one violated,
-   the task is refused with exactly the corresponding variant
+   the task is refused with exactly the corresponding variant ([variant_index e = k])
      1 NonTightProgram  2 ProgramContainsPrivateRecursion  3 InputPredicateInRuleHead
      4 InputOutputPredicatesOverlap  5 AssumptionContainsNonInputSymbols
      6 OutputPredicateInSpecificationAssumption  7 PlaceholdersWithIdenticalNamesDifferentSorts
+   and the value the error carries names the violation (the clauses of C11_error_names_violation).
    (the checks run in source order and stop at the first failure; with several violations the
    reported variant is that of one of them: C11_error_names_violation) *)
 Theorem C11_single_violation_variant :
@@ -103,8 +119,11 @@ Theorem C11_single_violation_variant :
     1 <= k <= 7 -> et_repr t = ReprTauStar ->
     condition is_tight has_private_recursion k t = false ->
     (forall j, 1 <= j <= 7 -> j <> k -> condition is_tight has_private_recursion j t = true) ->
-    external_validate is_tight has_private_recursion t = Err (variant_of k) /\
-    external_decompose is_tight has_private_recursion tau_star completion simp_classic t = Err (variant_of k).
+    exists e,
+      external_validate is_tight has_private_recursion t = Err e /\
+      external_decompose is_tight has_private_recursion tau_star completion simp_classic t = Err e /\
+      variant_index e = k /\
+      error_names_violation is_tight has_private_recursion t e.
 Proof. exact single_violation_variant. Qed.
 Print Assumptions C11_single_violation_variant.
 
@@ -129,22 +148,27 @@ Example C11_nonvacuous :
   let prog := [mkrule (HBasic (mkatom "out" [TPre (PNum 1)])) []] in
   let task bypass := mkext (inl prog) prog [] [] DSequential DUniversal ReprTauStar bypass true true in
   external_validate (fun _ => true) (fun _ _ => false) (task false) = Ok [] /\
-  external_validate (fun _ => false) (fun _ _ => false) (task false) = Err NonTightProgram /\
-  external_validate (fun _ => false) (fun _ _ => false) (task true) = Ok [WNonTightProgram; WNonTightProgram].
+  external_validate (fun _ => false) (fun _ _ => false) (task false) = Err (NonTightProgram prog) /\
+  external_validate (fun _ => false) (fun _ _ => false) (task true) = Ok [WNonTightProgram prog; WNonTightProgram prog].
 Proof. cbv zeta. repeat split; reflexivity. Qed.
 
 (* non-vacuity of the enforcement direction: an input predicate in a rule head (condition 3 and
-   only it) => refused with InputPredicateInRuleHead, obtained THROUGH the theorem *)
+   only it) => refused with InputPredicateInRuleHead CARRYING THAT PREDICATE, obtained THROUGH the
+   theorem (variant from variant_index, payload from the equation of error_names_violation) *)
 Example C11_violation_nonvacuous :
   let prog := [mkrule (HBasic (mkatom "in" [TPre (PNum 1)])) []] in
   let t := mkext (inl prog) prog [UGInput (mkpred "in" 1)] [] DSequential DUniversal ReprTauStar false true true in
   forall tau_star completion simp_classic,
-    external_decompose (fun _ => true) (fun _ _ => false) tau_star completion simp_classic t = Err InputPredicateInRuleHead.
+    external_decompose (fun _ => true) (fun _ _ => false) tau_star completion simp_classic t
+    = Err (InputPredicateInRuleHead [mkpred "in" 1]).
 Proof.
   cbv zeta. intros ts cp sc.
   match goal with |- external_decompose _ _ _ _ _ ?t = _ =>
-    apply (C11_single_violation_variant (fun _ => true) (fun _ _ => false) ts cp sc t 3) end;
-    [split; repeat constructor|reflexivity|reflexivity|].
-  intros j [H1 H7] Hne.
-  destruct j as [|[|[|[|[|[|[|[|j]]]]]]]]; try reflexivity; try (exfalso; apply Hne; reflexivity); exfalso; lia.
+    destruct (C11_single_violation_variant (fun _ => true) (fun _ _ => false) ts cp sc t 3)
+      as [e [_ [Hd [Hi Hn]]]] end;
+    [split; repeat constructor|reflexivity|reflexivity| |].
+  - intros j [H1 H7] Hne.
+    destruct j as [|[|[|[|[|[|[|[|j]]]]]]]]; try reflexivity; try (exfalso; apply Hne; reflexivity); exfalso; lia.
+  - rewrite Hd. destruct e; try discriminate Hi. cbn in Hn.
+    destruct Hn as [_ [_ [prog [[->| [= <-]] [-> _]]]]]; reflexivity.
 Qed.
